@@ -364,6 +364,25 @@ c.ensures('running-jobs-untouched', "self._active_agent is old(self._active_agen
           "and len(ghost('started')) == 0 and len(ghost('stop_requests')) == 0")
 
 
+# ---- round 9: the state every contract above starts from is the one the REAL constructor builds: an empty *unbounded* deque (a
+#      deque with a maxlen never refuses an append - it silently drops a waiting job from the other end), no active job, no background jobs
+def _install_fresh(I):
+    def unbounded_deque(I_, a, k):
+        q = a[0]
+        return isinstance(q, PyList) and getattr(q, 'is_deque', False) is True and getattr(q, 'maxlen', None) is None
+    I.spec_fns['unbounded_deque'] = Builtin('spec.unbounded_deque', unbounded_deque)
+spec.EXTRA_INSTALLERS.append(_install_fresh)
+
+c = contract(JC, 'fresh_job_control', serves=['C08', 'C09', 'C20'], name='lemma:JobControl() is the empty state with an unbounded queue', src='''
+def fresh_job_control():
+    return JobControl()
+''')
+c.setup(lambda b, case: (thread_module_hook(b), {})[1])
+c.crosscheck = False
+c.ensures('queue-never-drops-a-waiting-job', 'unbounded_deque(result._queue) and len(result._queue) == 0')
+c.ensures('nothing-runs', 'result._active_agent is None and len(result._background) == 0')
+
+
 # ---- what every contract of this file takes on trust (listed in the evidence)
 for _c in spec.REGISTRY:
     if _c.path == JC and _c.serves:
